@@ -797,3 +797,44 @@ def check_use_pure(ctx):
                       f'wrapper / task it is given', at=func.where(),
                       nontrivial=func.name == 'from_func')
     ctx.floor('USE-PURE', n, 3, 'wrapper-deriving functions of use.py')
+
+
+# --------------------------------------------------------- FACTORY-PURE ---
+
+def check_factory_pure(ctx):
+    """A run-task factory describes requests: asking it for a task (make)
+    or deriving another factory (copy) fills its memo and nothing else.  A
+    write that reaches the factory's own deps / soft_deps / kwargs makes
+    every LATER request of the same factory carry what an earlier request
+    asked for ("whatever was created earlier in the process")."""
+    from .. import effects
+    program = ctx.program
+    analyzer = effects.Analyzer(program, max_depth=3)
+    n = 0
+    for key in ('valjean.cosette.run:RunTaskFactory.make',
+                'valjean.cosette.run:RunTaskFactory.copy'):
+        func = program.maybe_func(key)
+        if func is None:
+            continue
+        n += 1
+        summ = analyzer.summary(func)
+        effs = [e for e in summ.effects
+                if not (e.root == 0 and e.field == 'cache')]
+        for eff in effs[:3]:
+            pname = func.params[eff.root] if eff.root < len(func.params) \
+                else f'#{eff.root}'
+            ctx.violated(
+                'FACTORY-PURE', func,
+                f'{func.name}: {eff.what} (reaches `{pname}`'
+                f'{"." + eff.field if eff.field else ""})',
+                at=f'{eff.func.module.relpath}:{eff.lineno}',
+                detail='a request modifies the factory (or its arguments): '
+                       'later requests of the same factory, and of its '
+                       'copies sharing the object, no longer get what they '
+                       'ask for (' + eff.describe() + ')')
+        if not effs:
+            ctx.holds('FACTORY-PURE', func,
+                      f'{func.name}: the only write reaching the factory or '
+                      f'the arguments is the memo self.cache',
+                      at=func.where())
+    ctx.floor('FACTORY-PURE', n, 2, 'RunTaskFactory.make / copy')
